@@ -79,11 +79,14 @@ pub mod prelude {
     pub use alloc::borrow::ToOwned;
     pub use alloc::string::ToString;
 
-    #[cfg(not(all(test, feature = "shuttle")))]
+    // `vls_verif` (set with RUSTFLAGS="--cfg vls_verif") is a verification hook: it swaps the
+    // sync primitives for shuttle's, like the `shuttle` test feature does, so that an external
+    // harness can explore thread schedules.  It is never set in normal builds.
+    #[cfg(not(any(all(test, feature = "shuttle"), vls_verif)))]
     pub use alloc::sync::{Arc, Weak};
-    #[cfg(all(test, feature = "shuttle"))]
+    #[cfg(any(all(test, feature = "shuttle"), vls_verif))]
     pub use shuttle::sync::{Arc, Mutex, MutexGuard, Weak};
-    #[cfg(all(feature = "std", not(all(test, feature = "shuttle"))))]
+    #[cfg(all(feature = "std", not(any(all(test, feature = "shuttle"), vls_verif))))]
     pub use std::sync::{Mutex, MutexGuard};
 
     #[cfg(not(feature = "std"))]
